@@ -45,6 +45,9 @@ class Identifier(ASTNode):
 
         if path_str and not parts:
             parts = path_str_to_parts(path_str)
+            if not parts:
+                # a path made of dots only, e.g. `select 1 as "."`: no name at all, as for an empty quoted name
+                raise ParsingException("Either path_str or parts must be provided for an Identifier")
         assert isinstance(parts, list)
         self.parts = parts
 
